@@ -210,7 +210,7 @@ def behavioural_property(st, name):
     except Exception as exc:
         st.violation("generated-module-broken:%s" % type(exc).__name__, "property name %r (attribute %r): %r" % (name, py, exc), case)
     # objects the parser visits twice (type list, sibling composition keyword) must record the JSON name just the same
-    for vlabel, variant in (("type-list", {**schema, "type": ["object", "null"]}), ("sibling-anyOf", {**schema, "anyOf": [{}]}), ("required+not", {**schema, "required": [name], "not": {"required": ["zz"]}})):
+    for vlabel, variant in (("type-list", {**schema, "type": ["object", "null"]}), ("sibling-anyOf", {**schema, "anyOf": [{}]}), ("required+not", {**schema, "required": [name], "not": {"required": ["zz"]}}), ("pattern-matches-the-name-too", {**schema, "patternProperties": {"": {"maxLength": 5}}})):
         kv, mv = impl.do_parse(variant)
         if kv != impl.ELEMENT:
             st.violation("unusable:parse-%s:%s" % (kv, vlabel), "property name %r (%s): %r" % (name, vlabel, mv), case)
@@ -222,6 +222,15 @@ def behavioural_property(st, name):
         else:
             ka, _ = impl.do_call(mv, {name: "v"})
             kb, _ = impl.do_call(mv, {name: 1})
+            if ka == impl.ACCEPT and isinstance(mv, ObjectMeta):
+                try:
+                    vpy = next(iter(mv.properties))
+                    vinst = mv({name: "v"})
+                    vok = getattr(vinst, vpy) == "v" and vinst._dict.get(vpy) == "v" and isinstance(repr(vinst), str)
+                except Exception as exc:
+                    vok = False
+                if not vok:
+                    st.violation("unusable:value-not-readable:%s" % vlabel, "property name %r (%s): the value is not readable under the attribute name" % (name, vlabel), {**case, "variant": vlabel})
             if ka != impl.ACCEPT or kb == impl.ACCEPT:
                 st.violation("unusable:variant-verdict:%s" % vlabel, "property name %r (%s): {name:'v'} -> %s, {name:1} -> %s" % (name, vlabel, ka, kb), {**case, "variant": vlabel})
     # a class-level default that mentions the property: the attribute must not get in the way of the machinery's own
